@@ -27,14 +27,7 @@ def _canonical_string(it, fv, args, kwargs):
     return Py.str(S.canon_str(Py.s(s)))
 
 
-def match_facts(m):
-    return z3.And(
-        Py.is_match(m),
-        Py.is_tuple(Py.mparts(m)),
-        S.json_value(Py.mobj(m)),
-        Py.is_dict(Py.mfc(m)),
-        z3.Or(Py.is_none(Py.mparent(m)), Py.is_match(Py.mparent(m))),
-    )
+match_facts = lib.MATCH_RECORD  # one predicate object: element invariants are compared by identity
 
 
 def matches_iter(ms):
